@@ -3,6 +3,7 @@ import WhVerif.Lemmas.C09PseudoInst
 import WhVerif.Lemmas.C09PseudoOrder
 import WhVerif.Lemmas.C02Compose
 import WhVerif.Lemmas.C09File
+import WhVerif.Lemmas.C09Cap
 /-!
 # C09 — PS and HP encodings are equivalent, round-trip, and never mix old and new phase
 
@@ -614,5 +615,31 @@ theorem carried_prev_pos_witness :
     [[(100, some (true, .int 101)), (200, some (true, .int 101)), (300, some (true, .int 101))],
      [(300, some (false, .missing)), (400, some (true, .int 301)), (500, some (true, .int 301))]] ∧
     writeFileCarry none exChainGroups ≠ writeFile exChainGroups := by decide
+
+/-- **fitting_set_selected** ("as long as the sets fit under the coverage cap", made a statement about the sets).  One pass of
+    read selection over the pseudo reads of a phased VCF, popped in ANY order `order`: a phase set `i` whose span has at most
+    `cap` sets over each of its positions (`Cap.fits`, the set itself included) has a read selected as soon as one of its
+    reads is in the queue — whatever the other sets are, however many there are, and whatever was selected before it.  `cap` is
+    the per-sample cap `max_coverage // len(family)`; for unrelated samples that is the documented `--internal-downsampling`
+    value itself.  (With `phase_input_reproduces_sets`, whose hypothesis is that the pseudo reads are selected.) -/
+theorem fitting_set_selected (cap : Nat) (ps : List Nat) (spans : List Cap.Span) (order : List Nat) (i : Nat)
+    (hlt : i < spans.length) (hmem : i ∈ order) (hf : Cap.fits cap ps spans i = true) :
+    i ∈ Cap.pass cap ps spans order :=
+  Cap.foldl_selects cap ps spans order [] i ⟨List.nodup_nil, by simp⟩ hlt hf hmem
+
+/-- 8 interleaved phase sets of one sample: set `j` reaches from position `100 + 10 j` to `300 + 10 j`, all overlap -/
+def exStack : List Cap.Span := (List.range 8).map fun j => ⟨100 + 10 * j, 300 + 10 * j⟩
+def exStackPos : List Nat := (List.range 8).flatMap fun j => [100 + 10 * j, 200 + 10 * j, 300 + 10 * j]
+
+/-- non-vacuity of `fitting_set_selected`: under the default cap 15 each of the 8 sets fits (depth 8) and is selected -/
+example : (List.range 8).all (fun i => Cap.fits 15 exStackPos exStack i) = true ∧
+    (Cap.pass 15 exStackPos exStack (List.range 8)).length = 8 := by decide
+
+/-- **cap_per_run_witness**.  Why the cap must be divided by the members of the family being phased and not by the number of
+    families of the run: two unrelated samples give `15 / 2 = 7`, and of 8 mutually overlapping sets (which fit under 15)
+    only 7 get a read — the eighth is turned away for coverage and comes out unphased. -/
+theorem cap_per_run_witness :
+    (Cap.pass (15 / 2) exStackPos exStack (List.range 8)).length = 7 ∧ 7 ∉ Cap.pass (15 / 2) exStackPos exStack (List.range 8) ∧
+    Cap.fits 15 exStackPos exStack 7 = true := by decide
 
 end WhVerif.Props.C09
